@@ -108,12 +108,32 @@ def r01_1_filter(ctx, m, func, rule):
                 if a:
                     used.add(a)
     if used != {"s", "e", "qs", "qe"}:
-        if bad is None:
-            raise AnalysisError(rule, func.where(site.loop), f"overlap filter: only atoms {sorted(used)} recognised in the guards")
+        # operands of the guards that are neither one of the four interval ends nor a constant: the filter is not understood
+        unknown = set()
+        for p in site.paths:
+            for t, _ in p.tests():
+                for c in ast.walk(t):
+                    if isinstance(c, ast.Compare):
+                        for o in [c.left] + list(c.comparators):
+                            if not isinstance(o, ast.Constant) and site.atom_of(o) is None and not (isinstance(o, ast.UnaryOp) and isinstance(o.operand, ast.Constant)):
+                                unknown.add(norm(o)[:40])
+        plain_flags = {u for u in unknown if u.isidentifier()}  # e.g. the `cases` code: a flag variable, not an interval end
+        if bad is None or (unknown - plain_flags):
+            raise AnalysisError(rule, func.where(site.loop), f"overlap filter: only atoms {sorted(used)} recognised in the guards (not understood: {sorted(unknown)[:4]})")
     ctx.check(bad is None, rule, func.where(site.loop), "overlap filter is exact: a segment [s,e) is kept exactly when it overlaps the query [qs,qe) (s < qe and qs < e), on all 13 orderings", key_of(func, f"overlap-filter:{bad['ordering'] if bad else ''}"), rows=rows, **({"witness": bad} if bad else {}))
     # slice convention
     sl = site.slice
-    ok = sl.lower is not None and norm(sl.lower) == site.lo and sl.upper is not None and norm(sl.upper) in (f"{site.hi} + 1", f"1 + {site.hi}") and sl.step is None
+    from ..core import reaching_def
+
+    def _bound(b):
+        if isinstance(b, ast.Name) and b.id not in (site.lo, site.hi):
+            d_ = reaching_def(func.node, site.loop, b.id)
+            if d_ is None:
+                raise AnalysisError(rule, func.where(site.loop), f"cannot find the definition of the slice bound `{b.id}`")
+            return d_
+        return b
+
+    ok = sl.lower is not None and norm(_bound(sl.lower)) == site.lo and sl.upper is not None and norm(_bound(sl.upper)) in (f"{site.hi} + 1", f"1 + {site.hi}") and sl.step is None
     ctx.check(ok, rule, func.where(site.loop), "the search window (inclusive start, inclusive end) is scanned completely: [start : end + 1]", key_of(func, f"window-slice:{norm(site.loop.iter)}"), slice=norm(site.loop.iter))
     # search call arguments: same list, initial window covers the list
     a = site.search_call.args
@@ -352,12 +372,19 @@ def r01_5(ctx, m):
         ok_range = const_value(it.slice.lower) == 1 and it.slice.upper is None and it.slice.step is None
         nxt = [norm(e) for e in loop.target.elts]
     else:
-        if not (isinstance(it, ast.Call) and norm(it.func) == "range" and len(it.args) == 1):
-            raise AnalysisError("R01.5", f.where(loop), "fold loop is neither `for i in range(len(list) - 1)` nor `for node, orient in list[1:]`")
-        mm = norm(it.args[0])
-        src_list = mm[4:].split(")")[0] if mm.startswith("len(") else None
-        ok_range = mm == f"len({src_list}) - 1"
-        nxt = [f"{src_list}[{iv} + 1][0]", f"{src_list}[{iv} + 1][1]"]
+        if isinstance(it, ast.Call) and norm(it.func) == "range" and len(it.args) == 2 and const_value(it.args[0]) == 1 and norm(it.args[1]).startswith("len("):
+            # for i in range(1, len(list)): the next input node is list[i]
+            mm = norm(it.args[1])
+            src_list = mm[4:].split(")")[0]
+            ok_range = mm == f"len({src_list})"
+            nxt = [f"{src_list}[{iv}][0]", f"{src_list}[{iv}][1]"]
+        else:
+            if not (isinstance(it, ast.Call) and norm(it.func) == "range" and len(it.args) == 1):
+                raise AnalysisError("R01.5", f.where(loop), "fold loop is neither `for i in range(len(list) - 1)` nor `for node, orient in list[1:]`")
+            mm = norm(it.args[0])
+            src_list = mm[4:].split(")")[0] if mm.startswith("len(") else None
+            ok_range = mm == f"len({src_list}) - 1"
+            nxt = [f"{src_list}[{iv} + 1][0]", f"{src_list}[{iv} + 1][1]"]
     from ..core import local_defs, resolve_expr
 
     ldefs = local_defs(ast.Module(body=loop.body, type_ignores=[]))
@@ -369,6 +396,14 @@ def r01_5(ctx, m):
         if isinstance(st, ast.Assign) and isinstance(st.targets[0], ast.Name) and norm(st.value) == f"[{src_list}[0]]":
             acc = st.targets[0].id
     want = [f"{acc}[-1][0]", nxt[0], f"{acc}[-1][1]", nxt[1]]
+    import re as _re
+
+    args = [_re.sub(r"(\w+)\[len\(\1\) - 1\]", r"\1[-1]", a_) for a_ in args]  # X[len(X) - 1] is X[-1]
+    if acc is not None and args != want:
+        known = {acc, src_list, iv, "len"} | {x.id for x in ast.walk(loop.target) if isinstance(x, ast.Name)}
+        stray = sorted({x.id for a_ in args for x in ast.walk(ast.parse(a_, mode="eval")) if isinstance(x, ast.Name)} - known)
+        if stray or any("len(" in a_ for a_ in args):
+            raise AnalysisError("R01.5", f.where(call), f"cannot read the arguments of the merge call {args} as (last output element, next input node)")
     ctx.check(ok_range and acc is not None and args == want, "R01.5", f.where(call), "the fold merges the accumulated run (last output element) with the next input node, over all consecutive pairs", key_of(f, f"fold-args:{args}"), args=args, expected=want, range=mm)
     if acc is None:
         return
@@ -386,13 +421,26 @@ def r01_5(ctx, m):
         fail_body, ok_body = (st.body, st.orelse) if (t == f"{res} is False" and pol) or (t == res and not pol) or (t == f"{res} == False" and pol) else (st.orelse, st.body)
         fb = [norm(s) for s in fail_body]
         ob = [norm(s) for s in ok_body]
-        n2 = [k for k, v in local.items() if v == want[1]] + [want[1]]
-        o2 = [k for k, v in local.items() if v == want[3]] + [want[3]]
-        n1 = [k for k, v in local.items() if v == want[0]] + [want[0]]
-        o1 = [k for k, v in local.items() if v == want[2]] + [want[2]]
-        emit_ok = any(("+=" in s or (".append(" in s and not s.startswith(acc + "."))) and any(x in s for x in n1) and any(x in s for x in o1) for s in fb)
-        app_ok = any(s == f"{acc}.append([{a}, {b}])" for s in fb for a in n2 for b in o2)
+
+        def rtext(s_):
+            """statement text with the loop's single-assignment temporaries expanded (previous = acc[-1]; n1 = previous[0] ...)"""
+            e_ = s_.value if isinstance(s_, (ast.Assign, ast.AugAssign, ast.Expr)) else None
+            return _re.sub(r"(\w+)\[\(?len\(\1\) - 1\)?\]", r"\1[-1]", resolve_expr(None, e_, defs=ldefs)) if e_ is not None else norm(s_)
+
+        def is_emit(s_):
+            if isinstance(s_, ast.AugAssign) and isinstance(s_.op, ast.Add):
+                return True
+            return isinstance(s_, ast.Expr) and isinstance(s_.value, ast.Call) and isinstance(s_.value.func, ast.Attribute) and s_.value.func.attr == "append" and norm(s_.value.func.value) != acc
+
+        emit_ok = any(is_emit(s_) and want[0] in rtext(s_) and want[2] in rtext(s_) for s_ in fail_body)
+        app_ok = any(isinstance(s_, ast.Expr) and isinstance(s_.value, ast.Call) and norm(s_.value.func) == f"{acc}.append" and len(s_.value.args) == 1 and resolve_expr(None, s_.value.args[0], defs=ldefs).replace(" ", "") in (f"[{want[1]},{want[3]}]".replace(" ", ""), (nxt[0][:-3].replace(" ", "") if not (slice_form or zip_form) else "")) for s_ in fail_body)
         rep_ok = ob == [f"{acc}[-1] = {res}"]
+        if not rep_ok and len(ok_body) == 1 and isinstance(ok_body[0], ast.Assign) and isinstance(ok_body[0].targets[0], ast.Subscript) and norm(ok_body[0].targets[0].value) == acc and norm(ok_body[0].value) == res:
+            idx = _re.sub(r"len\((\w+)\) - 1", "-1", resolve_expr(None, ok_body[0].targets[0].slice, defs=ldefs)).strip("()")
+            if idx == "-1":
+                rep_ok = True
+            elif not _re.fullmatch(r"-?\d+", idx):
+                raise AnalysisError("R01.5", f.where(ok_body[0]), f"cannot read which element of `{acc}` the merged run replaces (`{idx}`)")
         ok = emit_ok and app_ok and rep_ok
         detail = {"on_failure": fb, "on_success": ob}
     ctx.check(ok, "R01.5", f.where(loop), "when two intervals cannot be merged the finished run is emitted and the next node starts a new run; when they can, the merged run replaces the last one", key_of(f, f"fold-branches:{detail}"), **detail)
@@ -783,6 +831,8 @@ def r01_46_unstable(ctx, m):
             sites.append((n, ".reverse()"))
         if isinstance(n, ast.Subscript) and norm(n.value) == seglist and isinstance(n.slice, ast.Slice) and n.slice.step is not None and const_value(n.slice.step) == -1 and n.slice.lower is None and n.slice.upper is None:
             sites.append((n, "[::-1]"))
+    if not sites and any(isinstance(l, ast.For) and isinstance(l.iter, ast.Call) and norm(l.iter.func) == "range" and len(l.iter.args) == 3 and isinstance(const_value(l.iter.args[2], None), int) and const_value(l.iter.args[2]) < 0 for l in walk_own(f.node)):
+        raise AnalysisError("R01.4", f.where(), "the segment list is walked by a descending index loop: the orientation of the emission is not read from it")
     if not sites:
         ctx.violated("R01.4", f.where(), "the segments found for an interval are never reversed: a reverse-orientation interval is emitted in forward order", key_of(f, "reversed-emission:none"))
     else:
